@@ -32,6 +32,11 @@ def get_material(m):
         return library.load_damage("SiC", m["variant"])
     T = np.array([0.0, 3000.0])
     c = lambda k: np.array([fl(m[k]), fl(m[k])])
+    if m.get("tab"):
+        # temperature-dependent strength and modulus: three-point tables with a knot at 1000
+        T3 = np.array([fl(x) for x in m["tab"]["T"]])
+        return materials.StandardCeramicMaterial(T3, np.array([fl(x) for x in m["tab"]["s0"]]), T3, np.array([fl(x) for x in m["tab"]["m"]]),
+                                                 fl(m["c_bar"]), fl(m["nu"]), T, c("Nv"), T, c("Bv"))
     return materials.StandardCeramicMaterial(T, c("s0"), T, c("m"), fl(m["c_bar"]), fl(m["nu"]), T, c("Nv"), T, c("Bv"))
 
 
@@ -41,7 +46,8 @@ def run(case):
         mat = get_material(case["material"])
         rec = receiver.Receiver(fl(case["period"]), 1, "rigid")
         times = np.array(conv(case["times"]))
-        for pspec in case["panels"]:
+        names = case.get("panel_names") or [None] * len(case["panels"])
+        for pspec, pname in zip(case["panels"], names):
             panel = receiver.Panel("rigid")
             for t in pspec:
                 tube = receiver.Tube(fl(t["r"]), fl(t["t"]), fl(t["h"]), t["nr"], t["nt"], t["nz"], T0=0.0, multiplier=t["mult"])
@@ -53,7 +59,7 @@ def run(case):
                 for name, a in t["quad"].items():
                     tube.add_quadrature_results(name, np.array(conv(a)))
                 panel.add_tube(tube)
-            rec.add_panel(panel)
+            rec.add_panel(panel, name=pname)
         res = {}
         for name in case["models"]:
             model = MODELS[name](solverparams.ParameterSet())
